@@ -415,6 +415,7 @@ let () =
        | "minimax" :: d :: r -> print_endline (string_of_z (minimax_fast (parse_game (Array.of_list r) 0) (n_of_string d)))
        | "matesin" :: n :: r -> print_endline (b2s (spec_mates_in (n_of_string n) (parse_game (Array.of_list r) 0)))
        | "wf" :: r -> print_endline (b2s (wf (parse_game (Array.of_list r) 0)))
+       | "inv" :: r -> print_endline (b2s (legal_inv_b (parse_game (Array.of_list r) 0)))
        | "specperft" :: r -> print_endline (do_specperft r)
        | "perft" :: d :: r -> print_endline (string_of_n (perft_n (n_of_string d) (parse_game (Array.of_list r) 0)))
        | x :: _ -> print_endline ("BADREQ " ^ x))
